@@ -45,7 +45,7 @@ var Classes = []string{
 	"zlib-corrupt", "zlib-truncated", "zlib-badheader", "zlib-bad-checksum", "encoding-lzma", "encoding-none",
 	"blocktype-unknown", "blocktype-header-again",
 	"dense-no-ids", "dense-no-lats", "dense-no-lons", "dense-short-lats", "dense-short-lons",
-	"dense-usersid-oor", "dense-keyvals-oor", "dense-keyvals-odd", "dense-short-versions", "dense-short-usersids",
+	"dense-usersid-oor", "dense-keyvals-oor", "dense-keyvals-odd", "dense-keyvals-short", "dense-short-versions", "dense-short-usersids",
 	"way-key-oor", "way-val-oor", "way-keys-longer", "way-usersid-oor", "way-lats-longer",
 	"rel-key-oor", "rel-usersid-oor", "rel-role-oor", "rel-roles-longer", "rel-memids-shorter",
 	"stringtable-missing", "payload-truncated", "payload-garbage",
@@ -162,6 +162,9 @@ func damage(b *pbfw.Block, class string) bool {
 		d.Info.UserSIDs = []int32{3, 99}
 	case "dense-keyvals-oor":
 		d.Tags = [][]pbfw.Tag{{{K: 1, V: 77}}, {}}
+	case "dense-keyvals-short":
+		// the column ends on an entry boundary but has fewer terminators than the group has nodes
+		d.KeysVals, d.RawKeysVals = false, []int32{1, 2, 0}
 	case "dense-keyvals-odd":
 		d.KeysVals, d.RawKeysVals = false, []int32{1, 2, 1}
 	case "dense-short-versions":
